@@ -130,6 +130,7 @@ def main():
     ap.add_argument('--replay')
     ap.add_argument('--no-evidence', action='store_true')
     ap.add_argument('--no-conformance', action='store_true')
+    ap.add_argument('--fail-fast', action='store_true', help='do not start further instances once a violation was replayed (mutant runs)')
     ap.add_argument('--scale', type=float, default=float(os.environ.get('VP_TIMEOUT_SCALE', '1')))
     args = ap.parse_args()
 
@@ -198,7 +199,11 @@ def main():
     results = []
     print(f'[{pid}] tier={tier} instances={len(insts)} jobs={args.jobs} active_regions={active}', flush=True)
 
+    stop = {'flag': False}
+
     def job(i):
+        if stop['flag']:
+            return i, {'name': i['name'], 'status': 'skipped', 'wall_s': 0.0}
         if any(v in active for v in i.get('vacuous_if', ())):
             # whole input domain inside an excluded known-finding region (declared by the harness): not run while the finding is open
             return i, {'name': i['name'], 'status': 'excluded', 'wall_s': 0.0}
@@ -212,6 +217,8 @@ def main():
             # the whole input domain of this instance lies inside an excluded known-finding region: nothing to decide now;
             # it becomes a live check again as soon as the finding's witness stops failing
             r['status'] = 'excluded'
+        if args.fail_fast and r.get('status') == 'violation':
+            stop['flag'] = True
         return i, r
 
     with concurrent.futures.ThreadPoolExecutor(max_workers=args.jobs) as ex:
